@@ -9,4 +9,418 @@ import Mathlib.Tactic.Linarith
 namespace BM.C02
 open BM
 
+/-! ### natToBits: head bit, reduction mod 2^len -/
+
+theorem natToBits_succ_head (k n : Nat) :
+    natToBits (k + 1) n = decide (n / 2 ^ k % 2 = 1) :: natToBits k n := by
+  induction k generalizing n with
+  | zero => simp [natToBits]
+  | succ k ih =>
+    rw [natToBits, ih (n / 2)]
+    rw [Nat.div_div_eq_div_mul, ← Nat.pow_succ']
+    simp [natToBits]
+
+theorem natToBits_mod (len n : Nat) : natToBits len (n % 2 ^ len) = natToBits len n := by
+  have h := natToBits_bitsToNat (natToBits len n)
+  rw [natToBits_length, bitsToNat_natToBits_mod] at h
+  exact h
+
+theorem bitsToInt_cons (s : Bool) (t : Bits) :
+    bitsToInt (s :: t) = if s then (bitsToNat (s :: t) : Int) - (2 : Int) ^ (t.length + 1) else (bitsToNat (s :: t) : Int) := by
+  simp [bitsToInt]
+
+theorem pow_cast (k : Nat) : ((2 ^ k : Nat) : Int) = (2 : Int) ^ k := by
+  simp
+
+theorem bitsToInt_intToBits' (k : Nat) (i : Int)
+    (h : -((2 : Int) ^ k) ≤ i ∧ i < (2 : Int) ^ k) :
+    bitsToInt (intToBits (k + 1) i) = i := by
+  obtain ⟨P, hP⟩ : ∃ P : Nat, P = 2 ^ k := ⟨_, rfl⟩
+  have hPpos : 0 < P := by rw [hP]; exact Nat.pos_of_ne_zero (by simp)
+  have hPi : ((2 : Int) ^ k) = (P : Int) := by rw [hP]; simp
+  have h2 : ((2 : Int) ^ (k + 1)) = 2 * (P : Int) := by rw [pow_succ, hPi]; ring
+  have h2n : 2 ^ (k + 1) = 2 * P := by rw [hP, Nat.pow_succ]; ring
+  rw [hPi] at h
+  unfold intToBits
+  rw [h2]
+  by_cases hi : 0 ≤ i
+  · have hm : i % (2 * (P : Int)) = i := Int.emod_eq_of_lt hi (by omega)
+    rw [hm]
+    obtain ⟨n, rfl⟩ := Int.eq_ofNat_of_zero_le hi
+    simp only [Int.toNat_natCast]
+    rw [natToBits_succ_head, bitsToInt_cons, ← natToBits_succ_head, bitsToNat_natToBits_mod, ← hP, h2n]
+    have hn : n < P := by omega
+    rw [Nat.div_eq_of_lt hn, Nat.mod_eq_of_lt (by omega : n < 2 * P)]
+    simp
+  · have hm : i % (2 * (P : Int)) = i + 2 * P := by
+      rw [← Int.add_mul_emod_self_left i (2 * (P : Int)) 1, Int.mul_one]
+      exact Int.emod_eq_of_lt (by omega) (by omega)
+    rw [hm]
+    obtain ⟨n, hn⟩ := Int.eq_ofNat_of_zero_le (by omega : 0 ≤ i + 2 * (P : Int))
+    rw [hn]
+    simp only [Int.toNat_natCast]
+    rw [natToBits_succ_head, bitsToInt_cons, ← natToBits_succ_head, bitsToNat_natToBits_mod, ← hP, h2n]
+    have hn1 : P ≤ n := by omega
+    have hn2 : n < 2 * P := by omega
+    have hd : n / P = 1 := Nat.div_eq_of_lt_le (by omega) (by omega)
+    rw [hd, Nat.mod_eq_of_lt hn2]
+    simp only [natToBits_length]
+    have : ((2 : Int) ^ (k + 1)) = 2 * (P : Int) := h2
+    simp only [decide_true, if_true]
+    rw [this]; omega
+
+
+theorem intToBits_bitsToInt' (b : Bits) (hb : b ≠ []) : intToBits b.length (bitsToInt b) = b := by
+  cases b with
+  | nil => exact absurd rfl hb
+  | cons s t =>
+    have hlt := bitsToNat_lt (s :: t)
+    rw [bitsToInt_cons]
+    unfold intToBits
+    have hc : ((2 : Int) ^ (s :: t).length) = ((2 ^ (s :: t).length : Nat) : Int) := by simp
+    have hmod : ∀ x : Int, x = (bitsToNat (s :: t) : Int) ∨ x = (bitsToNat (s :: t) : Int) - (2 : Int) ^ (s :: t).length →
+        (x % (2 : Int) ^ (s :: t).length).toNat = bitsToNat (s :: t) := by
+      intro x hx
+      rcases hx with rfl | rfl
+      · rw [hc, ← Int.natCast_mod, Int.toNat_natCast, Nat.mod_eq_of_lt hlt]
+      · have := Int.add_mul_emod_self_left ((bitsToNat (s :: t) : Int)) ((2 : Int) ^ (s :: t).length) (-1)
+        rw [show (bitsToNat (s :: t) : Int) + (2 : Int) ^ (s :: t).length * -1
+              = (bitsToNat (s :: t) : Int) - (2 : Int) ^ (s :: t).length by ring] at this
+        rw [this, hc, ← Int.natCast_mod, Int.toNat_natCast, Nat.mod_eq_of_lt hlt]
+    have key := hmod (if s = true then (bitsToNat (s :: t) : Int) - (2 : Int) ^ (t.length + 1) else (bitsToNat (s :: t) : Int))
+      (by cases s <;> simp)
+    rw [key]
+    exact natToBits_bitsToNat (s :: t)
+
+theorem bitsToInt_range' (b : Bits) (hb : b ≠ []) :
+    -((2 : Int) ^ (b.length - 1)) ≤ bitsToInt b ∧ bitsToInt b < (2 : Int) ^ (b.length - 1) := by
+  cases b with
+  | nil => exact absurd rfl hb
+  | cons s t =>
+    rw [bitsToInt_cons, bitsToNat_cons]
+    have hlt := bitsToNat_lt t
+    simp only [List.length_cons, Nat.add_sub_cancel]
+    have hc : ((2 : Int) ^ t.length) = ((2 ^ t.length : Nat) : Int) := by simp
+    have h2 : ((2 : Int) ^ (t.length + 1)) = 2 * ((2 ^ t.length : Nat) : Int) := by rw [pow_succ, hc]; ring
+    rw [h2, hc]
+    cases s <;> simp <;> omega
+
+theorem intToBits_nonneg' (len : Nat) (i : Int) (h : 0 ≤ i) : intToBits len i = natToBits len i.toNat := by
+  obtain ⟨n, rfl⟩ := Int.eq_ofNat_of_zero_le h
+  unfold intToBits
+  have hc : ((2 : Int) ^ len) = ((2 ^ len : Nat) : Int) := by simp
+  rw [hc, ← Int.natCast_mod, Int.toNat_natCast, Int.toNat_natCast, natToBits_mod]
+
+theorem intToBits_neg' (len : Nat) (i : Int) (h : i < 0) (hr : -((2 : Int) ^ len) ≤ i) :
+    intToBits len i = natToBits len ((2 : Int) ^ len + i).toNat := by
+  unfold intToBits
+  have hpos : (0 : Int) < (2 : Int) ^ len := by positivity
+  have hm : i % (2 : Int) ^ len = (2 : Int) ^ len + i := by
+    rw [← Int.add_mul_emod_self_left i ((2 : Int) ^ len) 1, Int.mul_one, Int.add_comm]
+    exact Int.emod_eq_of_lt (by omega) (by omega)
+  rw [hm]
+
+
+/-! ### groups -/
+
+theorem groupsOf_append (w m : Nat) (g b : Bits) (hg : g.length = w) :
+    groupsOf w (m + 1) (g ++ b) = g :: groupsOf w m b := by
+  simp only [groupsOf]
+  rw [List.take_left' hg, List.drop_left' hg]
+
+/-- Induction over patterns whose length is a multiple of `w`: peel one full group at a time. -/
+theorem chunk_induction (w : Nat) (hw : 0 < w) (P : Bits → Prop) (hnil : P [])
+    (hstep : ∀ g rest : Bits, g.length = w → w ∣ rest.length → P rest → P (g ++ rest)) :
+    ∀ b : Bits, w ∣ b.length → P b := by
+  intro b
+  induction hn : b.length using Nat.strong_induction_on generalizing b with
+  | _ n ih =>
+    intro hd
+    by_cases h0 : n = 0
+    · have : b = [] := List.eq_nil_of_length_eq_zero (by omega)
+      subst this; exact hnil
+    · subst hn
+      obtain ⟨c, hc⟩ := hd
+      have hcpos : 0 < c := by
+        rcases Nat.eq_zero_or_pos c with rfl | h
+        · rw [Nat.mul_zero] at hc; omega
+        · exact h
+      have hwle : w ≤ b.length := by rw [hc]; exact Nat.le_mul_of_pos_right w hcpos
+      have hsplit : b = b.take w ++ b.drop w := (List.take_append_drop w b).symm
+      rw [hsplit]
+      have htl : (b.take w).length = w := by rw [List.length_take]; omega
+      have hdl : (b.drop w).length = w * (c - 1) := by
+        rw [List.length_drop, hc, Nat.mul_sub, Nat.mul_one]
+      apply hstep _ _ htl ⟨c - 1, hdl⟩
+      exact ih (b.drop w).length (by rw [List.length_drop]; omega) (b.drop w) rfl ⟨c - 1, hdl⟩
+
+theorem padRight_full (k : Nat) (g : Bits) (h : g.length = k) : padRight k g = g := by
+  simp [padRight, h]
+
+theorem toByteGroups_nil : toByteGroups [] = [] := by
+  simp [toByteGroups, groupsOf]
+
+theorem toByteGroups_append (g rest : Bits) (hg : g.length = 8) :
+    toByteGroups (g ++ rest) = g :: toByteGroups rest := by
+  unfold toByteGroups
+  have hl : ((g ++ rest).length + 7) / 8 = (rest.length + 7) / 8 + 1 := by
+    rw [List.length_append, hg]; omega
+  rw [hl, groupsOf_append 8 _ g rest hg, List.map_cons, padRight_full 8 g hg]
+
+theorem bytesRev_nil : bytesRev [] = [] := by
+  simp [bytesRev, toByteGroups_nil]
+
+theorem bytesRev_group_append (g rest : Bits) (hg : g.length = 8) :
+    bytesRev (g ++ rest) = bytesRev rest ++ g := by
+  unfold bytesRev
+  rw [toByteGroups_append g rest hg]
+  simp
+
+theorem bytesRev_append (a b : Bits) (ha : 8 ∣ a.length) :
+    bytesRev (a ++ b) = bytesRev b ++ bytesRev a := by
+  revert ha
+  refine chunk_induction 8 (by omega) (fun a => bytesRev (a ++ b) = bytesRev b ++ bytesRev a) ?_ ?_ a
+  · simp [bytesRev_nil]
+  · intro g rest hg _ ih
+    rw [List.append_assoc, bytesRev_group_append g (rest ++ b) hg, ih, bytesRev_group_append g rest hg,
+      List.append_assoc]
+
+theorem bytesRev_length' (b : Bits) (h : 8 ∣ b.length) : (bytesRev b).length = b.length := by
+  revert h
+  refine chunk_induction 8 (by omega) (fun b => (bytesRev b).length = b.length) ?_ ?_ b
+  · simp [bytesRev_nil]
+  · intro g rest hg _ ih
+    rw [bytesRev_group_append g rest hg, List.length_append, List.length_append, ih, Nat.add_comm]
+
+theorem bytesRev_single (g : Bits) (hg : g.length = 8) : bytesRev g = g := by
+  have := bytesRev_group_append g [] hg
+  simpa [bytesRev_nil] using this
+
+theorem bytesRev_involutive' (b : Bits) (h : 8 ∣ b.length) : bytesRev (bytesRev b) = b := by
+  revert h
+  refine chunk_induction 8 (by omega) (fun b => bytesRev (bytesRev b) = b) ?_ ?_ b
+  · simp [bytesRev_nil]
+  · intro g rest hg hr ih
+    rw [bytesRev_group_append g rest hg,
+      bytesRev_append (bytesRev rest) g (by rw [bytesRev_length' rest hr]; exact hr),
+      bytesRev_single g hg, ih]
+
+theorem toBytes_append (g rest : Bits) (hg : g.length = 8) :
+    toBytes (g ++ rest) = bitsToNat g :: toBytes rest := by
+  unfold toBytes; rw [toByteGroups_append g rest hg]; rfl
+
+theorem bytesRev_value' (b : Bits) (h : 8 ∣ b.length) : bitsToNat (bytesRev b) = leValue (toBytes b) := by
+  revert h
+  refine chunk_induction 8 (by omega) (fun b => bitsToNat (bytesRev b) = leValue (toBytes b)) ?_ ?_ b
+  · simp [bytesRev_nil, toBytes, toByteGroups_nil, leValue]
+  · intro g rest hg _ ih
+    rw [bytesRev_group_append g rest hg, bitsToNat_append, ih, toBytes_append g rest hg, leValue, hg]
+    ring
+
+theorem fromBytes_toBytes' (b : Bits) (h : 8 ∣ b.length) : fromBytes (toBytes b) = b := by
+  revert h
+  refine chunk_induction 8 (by omega) (fun b => fromBytes (toBytes b) = b) ?_ ?_ b
+  · simp [toBytes, toByteGroups_nil, fromBytes]
+  · intro g rest hg _ ih
+    rw [toBytes_append g rest hg]
+    unfold fromBytes at *
+    rw [List.flatMap_cons, ih]
+    have := natToBits_bitsToNat g
+    rw [hg] at this
+    rw [this]
+
+theorem fromBytes_length (d : List Nat) : (fromBytes d).length = d.length * 8 := by
+  induction d with
+  | nil => simp [fromBytes]
+  | cons x t ih =>
+    unfold fromBytes at *
+    rw [List.flatMap_cons, List.length_append, ih, natToBits_length, List.length_cons]; ring
+
+theorem toBytes_fromBytes' (d : List Nat) (h : ∀ x ∈ d, x < 256) : toBytes (fromBytes d) = d := by
+  induction d with
+  | nil => simp [fromBytes, toBytes, toByteGroups_nil]
+  | cons x t ih =>
+    have hx : x < 2 ^ 8 := by have := h x (by simp); omega
+    have : fromBytes (x :: t) = natToBits 8 x ++ fromBytes t := by simp [fromBytes]
+    rw [this, toBytes_append _ _ (natToBits_length 8 x), bitsToNat_natToBits 8 x hx,
+      ih (fun y hy => h y (by simp [hy]))]
+
+theorem toBytes_length (b : Bits) (h : 8 ∣ b.length) : (toBytes b).length = b.length / 8 := by
+  revert h
+  refine chunk_induction 8 (by omega) (fun b => (toBytes b).length = b.length / 8) ?_ ?_ b
+  · simp [toBytes, toByteGroups_nil]
+  · intro g rest hg _ ih
+    rw [toBytes_append g rest hg, List.length_cons, ih, List.length_append, hg]; omega
+
+theorem toBytes_lt (b : Bits) (h : 8 ∣ b.length) : ∀ x ∈ toBytes b, x < 256 := by
+  revert h
+  refine chunk_induction 8 (by omega) (fun b => ∀ x ∈ toBytes b, x < 256) ?_ ?_ b
+  · simp [toBytes, toByteGroups_nil]
+  · intro g rest hg _ ih x hx
+    rw [toBytes_append g rest hg] at hx
+    rcases List.mem_cons.mp hx with rfl | hx
+    · have := bitsToNat_lt g; rw [hg] at this; omega
+    · exact ih x hx
+
+
+/-! ### digits -/
+
+theorem hexVal_digitChar : ∀ n, n < 16 → hexVal? (digitChar n) = some n := by decide
+theorem octVal_digitChar : ∀ n, n < 8 → octVal? (digitChar n) = some n := by decide
+theorem binVal_digitChar : ∀ n, n < 2 → binVal? (digitChar n) = some n := by decide
+
+/-- `mapM` into `Option` succeeds with the list of values when every element has one. -/
+theorem mapM_option_cons {α β} (f : α → Option β) (a : α) (l : List α) :
+    (a :: l).mapM f = (match f a with | none => none | some b => match l.mapM f with | none => none | some bs => some (b :: bs)) := by
+  rw [List.mapM_cons]
+  cases f a <;> simp
+  cases l.mapM f <;> simp
+
+theorem digitsToBits_cons (w : Nat) (val? : Char → Option Nat) (c : Char) (s : List Char) (n : Nat) (b : Bits)
+    (hc : val? c = some n) (hs : digitsToBits w val? s = .ok b) :
+    digitsToBits w val? (c :: s) = .ok (natToBits w n ++ b) := by
+  unfold digitsToBits at *
+  rw [mapM_option_cons, hc]
+  cases h : s.mapM val? with
+  | none => rw [h] at hs; cases hs
+  | some ds =>
+    rw [h] at hs
+    simp only at hs ⊢
+    cases hs
+    simp
+
+theorem bitsToDigits_nil (w : Nat) : bitsToDigits w [] = .ok [] := by
+  simp [bitsToDigits, groupsOf]
+
+theorem bitsToDigits_append (w : Nat) (hw : 0 < w) (g b : Bits) (hg : g.length = w) (s : List Char)
+    (hb : bitsToDigits w b = .ok s) :
+    bitsToDigits w (g ++ b) = .ok (digitChar (bitsToNat g) :: s) := by
+  unfold bitsToDigits at *
+  rw [List.length_append, hg]
+  by_cases hm : b.length % w ≠ 0
+  · rw [if_pos hm] at hb; cases hb
+  · rw [if_neg hm] at hb
+    have hm' : ¬ ((w + b.length) % w ≠ 0) := by rw [Nat.add_mod_left]; exact hm
+    rw [if_neg hm', Nat.add_div_left _ hw, groupsOf_append w _ g b hg]
+    cases hb
+    simp
+
+theorem bitsToDigits_ok (w : Nat) (_hw : 0 < w) (b : Bits) (h : w ∣ b.length) :
+    ∃ s, bitsToDigits w b = .ok s := by
+  unfold bitsToDigits
+  rw [if_neg (by rw [Nat.mod_eq_zero_of_dvd h]; simp)]
+  exact ⟨_, rfl⟩
+
+/-- Parsing the printed digits gives the pattern back, for any digit alphabet that inverts `digitChar` below `2^w`. -/
+theorem parse_print (w : Nat) (hw : 0 < w) (val? : Char → Option Nat)
+    (hval : ∀ n, n < 2 ^ w → val? (digitChar n) = some n) (b : Bits) (h : w ∣ b.length) :
+    ∃ s, bitsToDigits w b = .ok s ∧ digitsToBits w val? s = .ok b ∧
+      (∀ c ∈ s, ∃ n, n < 2 ^ w ∧ c = digitChar n) := by
+  revert h
+  refine chunk_induction w hw (fun b => ∃ s, bitsToDigits w b = .ok s ∧ digitsToBits w val? s = .ok b ∧
+      (∀ c ∈ s, ∃ n, n < 2 ^ w ∧ c = digitChar n)) ?_ ?_ b
+  · exact ⟨[], bitsToDigits_nil w, by simp [digitsToBits], by simp⟩
+  · intro g rest hg _ ⟨s, h1, h2, h3⟩
+    have hlt : bitsToNat g < 2 ^ w := by have := bitsToNat_lt g; rwa [hg] at this
+    refine ⟨digitChar (bitsToNat g) :: s, bitsToDigits_append w hw g rest hg s h1, ?_, ?_⟩
+    · rw [digitsToBits_cons w val? _ s _ rest (hval _ hlt) h2]
+      have := natToBits_bitsToNat g
+      rw [hg] at this; rw [this]
+    · intro c hc
+      rcases List.mem_cons.mp hc with rfl | hc
+      · exact ⟨_, hlt, rfl⟩
+      · exact h3 c hc
+
+
+theorem digitChar_plain : ∀ n, n < 16 →
+    isPySpace (digitChar n) = false ∧ asciiLower (digitChar n) = digitChar n ∧ digitChar n ≠ '_' ∧
+    digitChar n ≠ 'x' ∧ digitChar n ≠ 'o' ∧ (n < 2 → digitChar n ≠ 'b') := by decide
+
+theorem tidy_fix (s : List Char) (h : ∀ c ∈ s, isPySpace c = false ∧ asciiLower c = c ∧ c ≠ '_') : tidy s = s := by
+  unfold tidy
+  have h1 : s.filter (fun c => !isPySpace c) = s := by
+    rw [List.filter_eq_self]; intro c hc; simp [(h c hc).1]
+  have h2 : s.map asciiLower = s := by
+    conv => rhs; rw [← List.map_id s]
+    apply List.map_congr_left; intro c hc; simp [(h c hc).2.1]
+  rw [h1, h2, List.filter_eq_self]
+  intro c hc; simp [(h c hc).2.2]
+
+theorem removeAll2_fix (c1 c2 : Char) (s : List Char) (h : ∀ c ∈ s, c ≠ c2) : removeAll2 c1 c2 s = s := by
+  induction s with
+  | nil => rfl
+  | cons a t ih =>
+    cases t with
+    | nil => rfl
+    | cons b t' =>
+      have hb : b ≠ c2 := h b (by simp)
+      rw [removeAll2, if_neg (by intro hh; exact hb hh.2), ih (fun c hc => h c (by simp [hc]))]
+
+theorem removeAll2_subset (c1 c2 : Char) (s : List Char) : ∀ c ∈ removeAll2 c1 c2 s, c ∈ s := by
+  fun_induction removeAll2 c1 c2 s with
+  | case1 => simp
+  | case2 a => simp
+  | case3 a b t h ih => intro c hc; have := ih c hc; simp [this]
+  | case4 a b t h ih =>
+    intro c hc
+    rcases List.mem_cons.mp hc with rfl | hc
+    · simp
+    · have := ih c hc; simp at this ⊢; tauto
+
+theorem toNat_ofNat_valid (n : Nat) (h : n.isValidChar) : (Char.ofNat n).toNat = n := by
+  unfold Char.ofNat
+  rw [dif_pos h]
+  rfl
+
+theorem asciiLower_not_upper (c : Char) : ¬ (65 ≤ (asciiLower c).toNat ∧ (asciiLower c).toNat ≤ 90) := by
+  unfold asciiLower
+  split
+  · rename_i h
+    have hv : (c.toNat + 32).isValidChar := by
+      unfold Nat.isValidChar; omega
+    rw [toNat_ofNat_valid _ hv]; omega
+  · rename_i h; exact h
+
+theorem tidy_not_upper (s : List Char) : ∀ c ∈ tidy s, ¬ (65 ≤ c.toNat ∧ c.toNat ≤ 90) := by
+  intro c hc
+  unfold tidy at hc
+  have := (List.mem_filter.mp hc).1
+  obtain ⟨d, _, rfl⟩ := List.mem_map.mp this
+  exact asciiLower_not_upper d
+
+theorem digitChar_of_val (c : Char) (n : Nat) (hu : ¬ (65 ≤ c.toNat ∧ c.toNat ≤ 90)) :
+    (hexVal? c = some n → n < 16 ∧ digitChar n = c) ∧ (octVal? c = some n → n < 8 ∧ digitChar n = c) ∧
+    (binVal? c = some n → n < 2 ∧ digitChar n = c) := by
+  refine ⟨?_, ?_, ?_⟩
+  · intro h
+    unfold hexVal? at h
+    simp only at h
+    split at h
+    · cases h
+      refine ⟨by omega, ?_⟩
+      unfold digitChar; rw [if_pos (by omega), show 48 + (c.toNat - 48) = c.toNat by omega, Char.ofNat_toNat]
+    · split at h
+      · cases h
+        refine ⟨by omega, ?_⟩
+        unfold digitChar; rw [if_neg (by omega), show 87 + (c.toNat - 87) = c.toNat by omega, Char.ofNat_toNat]
+      · split at h
+        · omega
+        · cases h
+  · intro h
+    unfold octVal? at h
+    simp only at h
+    split at h
+    · cases h
+      refine ⟨by omega, ?_⟩
+      unfold digitChar; rw [if_pos (by omega), show 48 + (c.toNat - 48) = c.toNat by omega, Char.ofNat_toNat]
+    · cases h
+  · intro h
+    unfold binVal? at h
+    split at h
+    · cases h; rename_i h0; subst h0; exact ⟨by omega, by decide⟩
+    · split at h
+      · cases h; rename_i _ h1; subst h1; exact ⟨by omega, by decide⟩
+      · cases h
+
+
 end BM.C02
